@@ -29,6 +29,7 @@ func main() {
 	keysOnly := flag.Bool("keys", false, "internal: print failing obligation keys as JSON, write no evidence")
 	dump := flag.String("dump", "", "debug: dump SSA + dominating conditions of pkg/rel:Func")
 	manifest := flag.Bool("manifest", false, "print MANIFEST.json generated from the rule registry")
+	lockstat := flag.Bool("lockstat", false, "debug: print lock / field access statistics")
 	novar := flag.Bool("novariants", false, "thorough tier without the variant suite (debug)")
 	flag.Parse()
 
@@ -56,6 +57,15 @@ func main() {
 
 	if *manifest {
 		writeManifest(*verif)
+		return
+	}
+	if *lockstat {
+		p, err := load.Load(load.Options{Dir: *dir})
+		if err != nil {
+			fmt.Println(err)
+			os.Exit(2)
+		}
+		rules.LockStat(p)
 		return
 	}
 	if *dump != "" {
